@@ -17,7 +17,7 @@ def lp_monitor(rfc20=False):
     def step(st, b):
         ne, fd, pd, hi, ctl, dd, sp, dq, ws, cr, bad = st
         isdot = (b == 0x2e)
-        return (True, fd or (not ne and isdot), isdot, hi or (b == NA) or (b not in (NA, BAD) and b >= 0x80), ctl or (b in LP.CTL_SET),
+        return (True, fd or (not ne and isdot), isdot, hi or scanex.is_na(b) or (b != BAD and not scanex.is_na(b) and b >= 0x80), ctl or (b in LP.CTL_SET),
                 dd or (pd and isdot), sp or (b in SPECIALS_SP) or (rfc20 and b in LP.RFC20), dq or b == 0x22, ws or (b in LP.WS), cr or b == 0x0d, bad or b == BAD)
     return init, step
 
